@@ -26,9 +26,10 @@ type dKind struct {
 }
 
 type dKid struct {
-	Kind  string `json:"kind"`
-	Name  string `json:"name"`
-	Value string `json:"value"`
+	Kind   string      `json:"kind"`
+	Name   string      `json:"name"`
+	Value  string      `json:"value"`
+	Status interface{} `json:"status,omitempty"` // the hook's desired attachment carries this status block
 }
 
 type dInit struct {
@@ -129,7 +130,11 @@ func (r *dRun) kidSpecs() []interface{} {
 		if r.sc.ns() == "" {
 			ns = r.sc.attNS(k.Kind) // cluster-scoped target: explicit namespace
 		}
-		ks = append(ks, sim.KidSpec(kindInfo(k.Kind), ns, k.Name, k.Value))
+		ko := sim.KidSpec(kindInfo(k.Kind), ns, k.Name, k.Value)
+		if k.Status != nil {
+			ko["status"] = sim.DeepCopyValue(k.Status)
+		}
+		ks = append(ks, ko)
 	}
 	return ks
 }
@@ -158,6 +163,9 @@ func prepareD(sc *dScenario) *dRun {
 
 func (r *dRun) desired(k dKid, value string) sim.Obj {
 	kid := sim.KidSpec(kindInfo(k.Kind), r.sc.attNS(k.Kind), k.Name, value)
+	if k.Status != nil {
+		kid["status"] = sim.DeepCopyValue(k.Status)
+	}
 	return sim.BuildChild(kid, nil, "r1", "e1")
 }
 
@@ -170,6 +178,7 @@ func (r *dRun) asCreatedByDC(k dKid, value, marker string) sim.Obj {
 	ann := sim.Annotations(obj)
 	ann["metacontroller.k8s.io/last-applied-configuration"] = string(data)
 	sim.SetAnnotations(obj, ann)
+	delete(obj, "status") // a status block in the desired attachment never reaches the stored object
 	sim.AddOwner(obj, r.target, true)
 	return obj
 }
@@ -189,6 +198,10 @@ func (r *dRun) createInitial(io dInit) {
 	case "ours-drift":
 		obj = r.asCreatedByDC(k, io.Value, r.sc.ID)
 		sim.SetNested(obj, "drifted", field, "value")
+		if io.Kind != "ConfigMap" {
+			// a list the hook specifies drifted as well (items of this list are identified by "port")
+			sim.SetNested(obj, []interface{}{sim.Obj{"name": "injected", "port": int64(9)}, sim.Obj{"name": "renamed", "port": int64(80)}}, "spec", "ports")
+		}
 	case "ours-foreignfield":
 		obj = r.asCreatedByDC(k, io.Value, r.sc.ID)
 		sim.SetNested(obj, "keep-me", field, "foreign")
@@ -220,7 +233,14 @@ func genDScenario(rng *rand.Rand, id string) *dScenario {
 	values := []string{"v1", "v2", "v3"}
 	for _, k := range sc.Kinds {
 		for i := 0; i < 1+rng.Intn(3); i++ {
-			sc.Kids = append(sc.Kids, dKid{Kind: k.Kind, Name: fmt.Sprintf("%s-%s-%d", lower(k.Kind), id, i), Value: values[rng.Intn(3)]})
+			kc := dKid{Kind: k.Kind, Name: fmt.Sprintf("%s-%s-%d", lower(k.Kind), id, i), Value: values[rng.Intn(3)]}
+			switch h := sim.Hash(fmt.Sprintf("%s-%d-status-", lower(k.Kind), i) + strings.TrimRight(id, "abcdefghijklmnopqrstuvwxyz")); {
+			case h[0] == '0':
+				kc.Status = map[string]interface{}{}
+			case h[0] == '1':
+				kc.Status = map[string]interface{}{"phase": "Wanted"}
+			}
+			sc.Kids = append(sc.Kids, kc)
 		}
 	}
 	for _, role := range []string{"ours-stale", "ours-drift", "ours-foreignfield", "other-decorator", "real-controller", "marker-only", "foreign"} {
